@@ -30,6 +30,11 @@ class MutList(list):
         return "%s%s" % (self.kind, list.__repr__(self))
 
 
+class PyIter(MutList):
+    """a consuming iterator: next() removes the front element, a `for` loop sees what is left"""
+    kind = "iter"
+
+
 class PyMap(dict):
     """HashMap / BTreeMap / HashSet (values None) model; keys must be hashable model values"""
     kind = "map"
@@ -811,6 +816,8 @@ class Interp:
                 return len(recv_list) == 0
             if m == "contains" and args:
                 return args[0] in recv_list
+            if m == "next" and isinstance(recv, PyIter):
+                return ("Some", recv.pop(0)) if recv else ("None",)
             if m in ("first", "last", "next"):
                 if not recv_list:
                     return ("None",)
